@@ -24,6 +24,7 @@ type RunConfig struct {
 	Verbose    bool
 	Pool       chan *solver.Proc
 	SolverKind string
+	XCheckEvery int
 }
 
 // Run explores all paths of harness function fn.
@@ -81,7 +82,7 @@ func Run(p *Program, fn *ssa.Function, prop string, cfg RunConfig) *Explorer {
 func runPath(p *Program, fn *ssa.Function, prop string, ex *Explorer, sv *solver.Proc, item WorkItem, cfg RunConfig) {
 	sv.Reset()
 	path := &Path{Ex: ex, Ctx: sym.NewCtx(), prefix: item.Prefix, auxPrefix: item.Aux, sv: sv, pr: sym.NewPrinter(),
-		QTimeout: time.Duration(cfg.PortfolioS) * time.Second}
+		QTimeout: time.Duration(cfg.PortfolioS) * time.Second, XCheckEvery: cfg.XCheckEvery}
 	path.No = atomic.AddInt64(&ex.Paths, 1)
 	if item.Model == nil {
 		path.needChk = true
